@@ -921,6 +921,7 @@ def _xproc_child(payload):
   return {'traces': run(ctx)}
 
 
+
 if __name__ == '__main__':
   from vmon import xproc as _xproc
   _xproc.child_main(_xproc_child)
@@ -936,3 +937,5 @@ LEVEL_TEXT = ('Every client-size sequence of a small box is pushed through the r
               'prefixes. Held-on-observed, not a proof beyond the boxes; seeds are sampled.')
 LEVEL_NOTE = ('Trusts NumPy concatenation/boolean indexing and the harness re-implementation of the bucket rule; the '
               '"non-trivial order" monitors have a false-alarm chance below 1e-14 per case.')
+
+TECHNIQUE += '; seeded streams replayed in a fresh interpreter under another PYTHONHASHSEED; derived subset views; shuffles of 4e3-1.6e4 items'
